@@ -33,7 +33,7 @@ LIB_CLASSES = {
     'DelayedCall': {'cancel', 'active'},
     'LoopingCall': {'start', 'stop'},
     'Transport': {'write', 'abortConnection', 'loseConnection'},
-    'dict': {'get', 'items'},
+    'dict': {'get', 'items', 'values', 'keys'},
     'deque': {'append', 'popleft'},
 }
 
@@ -215,6 +215,7 @@ def h_len(eng, p, fc, node, self_v, args, kwargs):
         elif isinstance(v, VRef):
             for (q2, cls) in eng.classof(q, v):
                 if cls == 'dict':
+                    eng.policy_escape(q2, v, 'len()')
                     c = z3.Select(harr(q2, '$card'), v.t)
                     q2.assume(c >= 0)
                     out.append(Res(q2, VInt(c)))
@@ -379,6 +380,7 @@ def h_list(eng, p, fc, node, self_v, args, kwargs):
             for (q2, cls) in eng.classof(q, v):
                 if cls != 'dict':
                     raise Unsupported('list(%s)' % cls)
+                eng.policy_escape(q2, v, 'list()')
                 from .engine_stmt import VKeys
                 ka, n, pos = dict_keys_arr(eng, q2, v.t)
                 out.append(Res(q2, VKeys(v.t, ka, n, False, pos)))
@@ -648,6 +650,7 @@ def h_deque_new(eng, p, fc, node, self_v, args, kwargs):
 
 def h_dict_get(eng, p, fc, node, self_v, args, kwargs):
     from .engine import Res
+    eng.policy_key(p, self_v, args[0], node)
     k = eng.key_term(args[0])
     eng.dict_facts(p, self_v.t, k)
     dom = z3.Select(harr(p, '$dom'), self_v.t, k)
@@ -667,8 +670,25 @@ def h_dict_get(eng, p, fc, node, self_v, args, kwargs):
 def h_dict_items(eng, p, fc, node, self_v, args, kwargs):
     from .engine import Res
     from .engine_stmt import VKeys
+    eng.policy_escape(p, self_v, '.items()')
     ka, n, pos = dict_keys_arr(eng, p, self_v.t)
     return [Res(p, VKeys(self_v.t, ka, n, True, pos))]
+
+
+def h_dict_values(eng, p, fc, node, self_v, args, kwargs):
+    from .engine import Res
+    from .engine_stmt import VKeys
+    eng.policy_escape(p, self_v, '.values()')
+    ka, n, pos = dict_keys_arr(eng, p, self_v.t)
+    return [Res(p, VKeys(self_v.t, ka, n, 'values', pos))]
+
+
+def h_dict_keys(eng, p, fc, node, self_v, args, kwargs):
+    from .engine import Res
+    from .engine_stmt import VKeys
+    eng.policy_escape(p, self_v, '.keys()')
+    ka, n, pos = dict_keys_arr(eng, p, self_v.t)
+    return [Res(p, VKeys(self_v.t, ka, n, False, pos))]
 
 
 def h_deque_append(eng, p, fc, node, self_v, args, kwargs):
@@ -677,6 +697,7 @@ def h_deque_append(eng, p, fc, node, self_v, args, kwargs):
     for (q, vs) in resolve_all(eng, p, args[:1]):
         if not isinstance(vs[0], VRef):
             raise Unsupported('deque of non-references')
+        eng.policy_escape(q, vs[0], 'appended to a deque')
         eng.deque_len(q, self_v)
         t = z3.Select(harr(q, '$dqt'), self_v.t)
         q.heap['$dq'] = z3.Store(harr(q, '$dq'), self_v.t, t, vs[0].t)
@@ -741,7 +762,7 @@ HANDLERS = {
     'task.LoopingCall': h_LoopingCall, 'LoopingCall.start': h_lc_start, 'LoopingCall.stop': h_lc_stop,
     'Transport.write': h_write, 'Transport.abortConnection': counter('tr_aborts'),
     'Transport.loseConnection': counter('tr_closes'),
-    'dict': h_dict_new, 'deque': h_deque_new, 'dict.get': h_dict_get, 'dict.items': h_dict_items,
+    'dict': h_dict_new, 'deque': h_deque_new, 'dict.get': h_dict_get, 'dict.items': h_dict_items, 'dict.values': h_dict_values, 'dict.keys': h_dict_keys,
     'deque.append': h_deque_append, 'deque.popleft': h_deque_popleft,
     'VBytes.decode': h_decode,
 }
